@@ -425,11 +425,13 @@ def e_slice(c):
 
 @st.composite
 def s_tree(draw, N=None, depth=None, cls=None, npol=None):
+    top = False
     if cls is None:
         cls = draw(st.sampled_from(["E", "O", "O"]))
         npol = 1 if cls == "E" else draw(st.sampled_from([1, 2]))
         N = draw(st.sampled_from([1, 2, 3, 5, 8, 13]))
         depth = draw(st.integers(2, 6))
+        top = True
     if depth <= 1:
         return {"t": "leaf", "spec": draw(s_signal(n=N, cls=cls, npol=npol, fams=["smallint", "unif", "const", "lead0"]))}
     kind = draw(st.sampled_from(["leaf", "bin", "bin", "binc", "binc", "slice", "copy", "tr"]))
@@ -516,8 +518,22 @@ def ev_tree(t, live, stats):
     return r, rm
 
 
+def _hugeify(t):
+    """leaves of ~1e160: products overflow to inf and differences of those give NaN, in the library exactly as in the array-pair model"""
+    if t["t"] == "leaf":
+        for k in ("sig", "noise"):
+            if t["spec"].get(k) and t["spec"][k].get("dt") != "i":
+                t["spec"][k]["scale"] = 1e160
+    for k in ("a", "b"):
+        if k in t:
+            _hugeify(t[k])
+
+
 def e_tree(c):
     reset()
+    if c.get("huge_values"):
+        c = __import__("copy").deepcopy(c)
+        _hugeify(c)
     live, stats = [], {}
     try:
         with np.errstate(all="ignore"):
@@ -526,7 +542,7 @@ def e_tree(c):
         for g in live:
             g.release()
     d = t_depth(c)
-    return {"nontrivial": d >= 3, "classes": [f"depth{d}", f"nodes{min(sum(v for k, v in stats.items() if k in ('leaf', 'bin', 'binc', 'slice', 'tr')), 12)}"]
+    return {"nontrivial": d >= 3, "classes": [f"depth{d}", "values~1e160" if c.get("huge_values") else "ordinary-values", f"nodes{min(sum(v for k, v in stats.items() if k in ('leaf', 'bin', 'binc', 'slice', 'tr')), 12)}"]
             + [k for k in ("len1-noisy-operand", "refl", "tr") if k in stats]}
 
 
@@ -537,5 +553,5 @@ PARTS = [
     Part("binop_huge", e_binop, s_binop(force_huge=True), quick=20, thorough=120, shards=16, quick_shards=4, shrink=False,
          rule="every case: 2^17 .. 2^18 samples, operand objects of the same dtype half of the time, writeable operands half of the time"),
     Part("slices", e_slice, s_slice, quick=1200, thorough=24000, shards=8, rule="non-trivial: noisy operand or 2-pol slice down to length 1"),
-    Part("trees", e_tree, s_tree(), quick=900, thorough=18000, shards=16, quick_shards=2, rule="non-trivial: depth >= 3"),
+    Part("trees", e_tree, st.tuples(s_tree(), st.integers(1, 2 ** 30)).map(lambda tv: dict(tv[0], huge_values=(tv[1] % 6 == 3))), quick=900, thorough=18000, shards=16, quick_shards=2, rule="non-trivial: depth >= 3"),
 ]
